@@ -1,24 +1,34 @@
-"""genx_str.py — re-extracts from src/String.c the small rules the String model (C16) relies on:
-the realloc sizes of String_Assign / String_Concat / String_Resize / String_Format_To, the byte
-count String_Rem hands to memmove, whether String_Rem raises ValueError for an absent needle,
-and shape checks for the parts of String_Resize / String_Rem that are modelled structurally.
+"""genx_str.py — re-extracts from src/String.c the rules and policies the String model (C16) relies on.
+
+Each modelled function (String_Assign, String_Concat, String_Resize, String_Format_To's generic branch,
+String_Rem) is NORMALISED (comments, string literals, the `#if CELLO_*_CHECK == 1 if (..) { throw(..); } #endif`
+blocks, casts, `const`, `is/isnt/not`, all white space removed; for String_Rem simple local definitions are
+inlined) and then matched AS A WHOLE against the accepted code shapes: a statement the shapes do not know
+makes the match fail (definition left out = broken obligation).  What varies inside a shape comes out as a
+parameter of the model: realloc size expressions, String_Rem's memmove count, the condition / fill count /
+early return of String_Resize, the local buffer and its threshold in String_Format_To.  Whether the values
+are ADMISSIBLE is decided by Coq lemmas (StringProofs.v gen_*), not here.  The accepted shapes and why
+each denotes the modelled function are listed in design.d/C16.md ("Accepted code shapes").
 Called by tools/gen_params.py: generate(repo, emit, src, func_body)."""
 import re
 
 
 def _expr(text, terms, signed):
     """Translate a C size expression built from known terms, integer literals, + and - into Coq.
-    terms: {c_text_without_spaces: coq_var}.  nat expressions may only use +."""
+    terms: {c_text_without_spaces: coq_text}.  nat expressions (signed=False) may only use +."""
     t = re.sub(r'\s+', '', text)
-    for c in sorted(terms, key=len, reverse=True):
-        t = t.replace(c, '@' + terms[c] + '@')
-    toks = re.findall(r'@[a-z]+@|\d+|[+\-]|.', t)
+    while t.startswith('(') and _balanced_outer(t):
+        t = t[1:-1]
+    keys = sorted(terms, key=len, reverse=True)
+    for i, c in enumerate(keys):
+        t = t.replace(c, '@%d@' % i)
+    toks = re.findall(r'@\d+@|\d+|[+\-]|.', t)
     out = []
     expect_operand = True
     for k in toks:
         if expect_operand:
-            if re.fullmatch(r'@[a-z]+@', k):
-                out.append(k.strip('@'))
+            if re.fullmatch(r'@\d+@', k):
+                out.append(terms[keys[int(k.strip('@'))]])
             elif re.fullmatch(r'\d+', k):
                 out.append(k)
             else:
@@ -35,109 +45,192 @@ def _expr(text, terms, signed):
     return ' '.join(out)
 
 
-def _realloc_arg(body):
-    """second argument of the LAST `s->val = realloc(s->val, <expr>);` in body"""
-    ms = re.findall(r's->val\s*=\s*realloc\s*\(\s*s->val\s*,([^;]*)\)\s*;', body)
-    return ms[-1] if ms else None
+def _balanced_outer(t):
+    """t starts with '(' — does that parenthesis close at the very end?"""
+    d = 0
+    for i, ch in enumerate(t):
+        if ch == '(':
+            d += 1
+        elif ch == ')':
+            d -= 1
+            if d == 0:
+                return i == len(t) - 1
+    return False
+
+
+def compact(b):
+    """normal form of a function body (see module docstring)"""
+    b = re.sub(r'"(?:[^"\\]|\\.)*"', '""', b)
+    b = re.sub(r'#if\s+CELLO_\w+_CHECK\s*==\s*1\s*if\s*\([^{}]*\)\s*\{\s*throw\s*\([^;]*\)\s*;\s*\}\s*#endif', ' ', b)
+    b = re.sub(r'\(\s*(?:const\s+)?(?:char\s*\*|int|size_t)\s*\)', '', b)
+    b = re.sub(r'\bconst\s+', '', b)
+    b = re.sub(r'\bisnt\b', '!=', b)
+    b = re.sub(r'\bis\b', '==', b)
+    b = re.sub(r'\bnot\s+', '!', b)
+    b = re.sub(r'\band\b', '&&', b)
+    b = re.sub(r'\s+', ' ', b)
+    b = re.sub(r' ?([^\w ]) ?', r'\1', b)
+    return b.strip()
+
+
+def inline_locals(b, keep):
+    """inline `T name = expr;` definitions of scalar / pointer locals that are never assigned again
+    (one definition each; sound where nothing between definition and use changes what expr reads)"""
+    keep = set(keep)
+    while True:
+        cand = [m for m in re.finditer(r'(?:char\*|size_t |int )(\w+)=([^;]*);', b) if m.group(1) not in keep]
+        if not cand:
+            return b
+        m = cand[0]
+        name, ex = m.group(1), m.group(2)
+        rest = b[:m.start()] + b[m.end():]
+        if re.search(r'\b%s(?:=[^=]|\+\+|--|[+\-*/]=)' % name, rest):
+            keep.add(name)                     # assigned again: leave it alone
+            continue
+        if re.search(r'[+\-<>?:]', ex.replace('->', '')):
+            ex = '(' + ex + ')'
+        b = re.sub(r'\b%s\b' % name, lambda _: ex, rest)
+
+
+NL = r'strlen\(c->c_str\(obj\)\)'
+Z0 = r"'\\0'"
 
 
 def generate(repo, emit, src, func_body):
     s = src('src/String.c')
 
-    def fn(name, ret=r'(?:static\s+)?[\w\*\s]+?'):
-        return func_body(s, r'static\s+\w+\s+%s\s*\([^)]*\)\s*\{' % name)
+    def fn(name):
+        b = func_body(s, r'static\s+\w+\s+%s\s*\([^)]*\)\s*\{' % name)
+        return b
 
-    # --- String_Assign: two accepted shapes
-    #   old: char* val = c_str(obj); .. realloc(s->val, strlen(val) + 1); .. strcpy(s->val, val);
-    #   new: size_t n = strlen(c_str(obj)); .. realloc(s->val, n + 1); .. memmove(s->val, c_str(obj), n + 1);
+    # ------------------------------------------------------------------ String_Assign
     b = fn('String_Assign')
-    ra = _realloc_arg(b) if b else None
-    e, safe = None, None
-    if ra and re.search(r'char\s*\*\s*val\s*=\s*c_str\s*\(\s*obj\s*\)', b) and re.search(r'strcpy\s*\(\s*s->val\s*,\s*val\s*\)', b):
-        e, safe = _expr(ra, {'strlen(val)': 'vl'}, False), 'false'
-    elif ra and re.search(r'size_t\s+n\s*=\s*strlen\s*\(\s*c_str\s*\(\s*obj\s*\)\s*\)\s*;', b) and \
-            re.search(r'memmove\s*\(\s*s->val\s*,\s*c_str\s*\(\s*obj\s*\)\s*,\s*n\s*\+\s*1\s*\)', b) and \
-            b.find('memmove') > b.find('realloc(') > b.find('size_t n'):
-        e, safe = _expr(ra, {'n': 'vl'}, False), 'true'
-    emit('string_assign_alloc', ('Definition string_assign_alloc (vl : nat) : nat := %s.   (* source: realloc(s->val, %s) *)'
-                                 % (e, ra.strip())) if e else None)
+    c = compact(b) if b else ''
+    e = safe = ra = None
+    m = re.fullmatch(r'\{struct String\*s=self;char\*val=c_str\(obj\);s->val=realloc\(s->val,(?P<e>[^;]*)\);strcpy\(s->val,val\);\}', c)
+    if m:
+        ra, e, safe = m.group('e'), _expr(m.group('e'), {'strlen(val)': 'vl'}, False), 'false'
+    m = re.fullmatch(r'\{struct String\*s=self;size_t n=strlen\(c_str\(obj\)\);s->val=realloc\(s->val,(?P<e>[^;]*)\);memmove\(s->val,c_str\(obj\),n\+1\);\}', c)
+    if m:
+        ra, e, safe = m.group('e'), _expr(m.group('e'), {'n': 'vl'}, False), 'true'
+    emit('string_assign_alloc', ('Definition string_assign_alloc (vl : nat) : nat := %s.   (* source: realloc(s->val, %s) *)' % (e, ra)) if e else None)
     emit('string_assign_self_safe', ('Definition string_assign_self_safe : bool := %s.   (* %s *)'
                                      % (safe, 'length first, memmove from c_str(obj) after the realloc' if safe == 'true'
                                         else 'strcpy from a pointer fetched before the realloc')) if e else None)
 
-    # --- String_Concat: two accepted shapes
-    #   old: realloc(s->val, strlen(s->val) + strlen(c_str(obj)) + 1); .. strcat(s->val, c_str(obj));
-    #   new: size_t n = strlen(s->val); size_t m = strlen(c_str(obj)); realloc(s->val, n + m + 1); ..
-    #        memcpy(s->val + n, c_str(obj), m); s->val[n + m] = '\0';
+    # ------------------------------------------------------------------ String_Concat
     b = fn('String_Concat')
-    ra = _realloc_arg(b) if b else None
-    e, safe = None, None
-    if ra and re.search(r'strcat\s*\(\s*s->val\s*,\s*c_str\s*\(\s*obj\s*\)\s*\)', b):
-        e, safe = _expr(ra, {'strlen(s->val)': 'sl', 'strlen(c_str(obj))': 'vl'}, False), 'false'
-    elif ra and re.search(r'size_t\s+n\s*=\s*strlen\s*\(\s*s->val\s*\)\s*;\s*size_t\s+m\s*=\s*strlen\s*\(\s*c_str\s*\(\s*obj\s*\)\s*\)\s*;', b) and \
-            re.search(r'mem(?:cpy|move)\s*\(\s*s->val\s*\+\s*n\s*,\s*c_str\s*\(\s*obj\s*\)\s*,\s*m\s*\)\s*;\s*s->val\s*\[\s*n\s*\+\s*m\s*\]\s*=\s*\'\\0\'\s*;', b) and \
-            b.find('memcpy') + b.find('memmove') + 1 > b.find('realloc(') > b.find('size_t m'):
-        e, safe = _expr(ra, {'n': 'sl', 'm': 'vl'}, False), 'true'
-    emit('string_concat_alloc', ('Definition string_concat_alloc (sl vl : nat) : nat := %s.   (* source: realloc(s->val, %s) *)'
-                                 % (e, ra.strip())) if e else None)
-    emit('string_concat_self_safe', ('Definition string_concat_self_safe : bool := %s.   (* %s *)'
-                                     % (safe, 'lengths first, memcpy from c_str(obj) after the realloc, explicit terminator' if safe == 'true'
-                                        else 'strcat(s->val, c_str(obj))')) if e else None)
+    c = compact(b) if b else ''
+    e = safe = ra = why = None
+    m = re.fullmatch(r'\{struct String\*s=self;s->val=realloc\(s->val,(?P<e>[^;]*)\);strcat\(s->val,c_str\(obj\)\);\}', c)
+    if m:
+        ra, e, safe, why = m.group('e'), _expr(m.group('e'), {'strlen(s->val)': 'sl', 'strlen(c_str(obj))': 'vl'}, False), 'false', 'strcat(s->val, c_str(obj))'
+    decl = r'(?:size_t n=strlen\(s->val\);size_t m=strlen\(c_str\(obj\)\);|size_t m=strlen\(c_str\(obj\)\);size_t n=strlen\(s->val\);)'
+    m = re.fullmatch(r'\{struct String\*s=self;' + decl + r's->val=realloc\(s->val,(?P<e>[^;]*)\);'
+                     r'(?:(?P<f1>memcpy|memmove)\(s->val\+n,c_str\(obj\),m\);s->val\[n\+m\]=' + Z0 + r';|(?P<f2>memcpy|memmove)\(s->val\+n,c_str\(obj\),m\+1\);)\}', c)
+    if m:
+        ra, e = m.group('e'), _expr(m.group('e'), {'n': 'sl', 'm': 'vl'}, False)
+        if m.group('f1'):
+            safe, why = 'true', 'lengths first, %s of m bytes from c_str(obj) after the realloc, explicit terminator' % m.group('f1')
+        elif m.group('f2') == 'memmove':
+            safe, why = 'true', 'lengths first, memmove of m+1 bytes (terminator included) from c_str(obj) after the realloc'
+        else:
+            safe, why = 'false', 'memcpy of m+1 bytes: source and destination share byte n when obj is the String itself'
+    emit('string_concat_alloc', ('Definition string_concat_alloc (sl vl : nat) : nat := %s.   (* source: realloc(s->val, %s) *)' % (e, ra)) if e else None)
+    emit('string_concat_self_safe', ('Definition string_concat_self_safe : bool := %s.   (* %s *)' % (safe, why)) if e else None)
 
-    # --- String_Resize
+    # ------------------------------------------------------------------ String_Resize
     b = fn('String_Resize')
-    e = _expr(_realloc_arg(b), {'n': 'n'}, False) if b and _realloc_arg(b) else None
-    shape = b and re.search(r'size_t\s+m\s*=\s*String_Len\s*\(\s*self\s*\)\s*;\s*s->val\s*=\s*realloc', b) and \
-        re.search(r'if\s*\(\s*n\s*>\s*m\s*\)\s*\{\s*memset\s*\(\s*&\s*s->val\s*\[\s*m\s*\]\s*,\s*0\s*,\s*n\s*-\s*m\s*\)\s*;\s*\}'
-                  r'\s*else\s*\{\s*s->val\s*\[\s*n\s*\]\s*=\s*\'\\0\'\s*;\s*\}', b)
-    emit('string_resize_alloc', ('Definition string_resize_alloc (n : nat) : nat := %s.   (* source: realloc(s->val, %s) *)'
-                                 % (e, _realloc_arg(b).strip())) if e else None)
-    emit('string_resize_shape_ok', 'Definition string_resize_shape_ok : bool := true.   (* n > m ? memset(&val[m],0,n-m) : val[n] = 0 *)'
-         if shape else None)
+    c = compact(b) if b else ''
+    dst = r'(?:&s->val\[m\]|s->val\+m)'
+    head = r'\{struct String\*s=self;size_t m=String_Len\(self\);(?P<same>if\((?:n==m|m==n)\)\{return;\})?s->val=realloc\(s->val,(?P<e>[^;]*)\);'
+    forms = [
+        # if (GROW) { memset } else { val[n] = 0 }
+        head + r'if\((?P<grow>n>m|m<n|n>=m|m<=n)\)\{memset\(' + dst + r',0,(?P<f>[^;]*)\);\}else\{s->val\[n\]=' + Z0 + r';\}\}',
+        # if (SHRINK) { val[n] = 0; return; } memset     |     if (SHRINK) { val[n] = 0; } else { memset }
+        head + r'if\((?P<shr>n<m|m>n|n<=m|m>=n)\)\{s->val\[n\]=' + Z0 + r';return;\}memset\(' + dst + r',0,(?P<f>[^;]*)\);\}',
+        head + r'if\((?P<shr>n<m|m>n|n<=m|m>=n)\)\{s->val\[n\]=' + Z0 + r';\}else\{memset\(' + dst + r',0,(?P<f>[^;]*)\);\}\}',
+    ]
+    e = ra = shr = fill = same = condtxt = None
+    for f in forms:
+        m = re.fullmatch(f, c)
+        if m:
+            ra, e = m.group('e'), _expr(m.group('e'), {'n': 'n'}, False)
+            g = m.groupdict()
+            if g.get('grow'):
+                condtxt = 'grows when ' + g['grow']
+                shr = 'n <=? m' if g['grow'] in ('n>m', 'm<n') else 'n <? m'
+            else:
+                condtxt = 'truncates when ' + g['shr']
+                shr = 'n <? m' if g['shr'] in ('n<m', 'm>n') else 'n <=? m'
+            fill = _expr(m.group('f'), {'n': 'n', 'm': 'm'}, True)
+            same = 'true' if m.group('same') else 'false'
+            ftxt = m.group('f')
+            break
+    ok = e and fill
+    emit('string_resize_alloc', ('Definition string_resize_alloc (n : nat) : nat := %s.   (* source: realloc(s->val, %s) *)' % (e, ra)) if ok else None)
+    emit('string_resize_same_returns', ('Definition string_resize_same_returns : bool := %s.   (* if (n == m) return; before the realloc *)' % same) if ok else None)
+    emit('string_resize_shrinks', ('Definition string_resize_shrinks (n m : nat) : bool := %s.   (* source: %s; that path is s->val[n] = 0 *)' % (shr, condtxt)) if ok else None)
+    emit('string_resize_fill', ('Definition string_resize_fill (n m : Z) : Z := (%s)%%Z.   (* source: memset(s->val + m, 0, %s) *)' % (fill, ftxt)) if ok else None)
+    emit('string_resize_shape_ok', 'Definition string_resize_shape_ok : bool := true.   (* whole body matched an accepted shape *)' if ok else None)
 
-    # --- String_Format_To (the generic branch after the last #else): two accepted shapes
-    #   old: size = vsnprintf(NULL, 0, ..); realloc(s->val, pos + size + 1); return vsprintf(s->val + pos, fmt, va);
-    #   new: size = vsnprintf(NULL, 0, ..); tmp = malloc(size + 1); vsprintf(tmp, fmt, va); realloc(..);
-    #        memcpy(s->val + pos, tmp, size + 1); free(tmp); return size;
+    # ------------------------------------------------------------------ String_Format_To (generic branch after the last #else)
     b = fn('String_Format_To')
     if b and '#else' in b:
         b = b[b.rfind('#else'):]
-    ra = _realloc_arg(b) if b else None
-    e = _expr(ra, {'pos': 'pos', 'size': 'size'}, False) if ra else None
-    safe = None
-    if e and re.search(r'int\s+size\s*=\s*vsnprintf\s*\(\s*NULL\s*,\s*0\s*,\s*fmt\s*,\s*va_tmp\s*\)', b):
-        if re.search(r'return\s+vsprintf\s*\(\s*s->val\s*\+\s*pos\s*,\s*fmt\s*,\s*va\s*\)', b):
-            safe = 'false'
-        else:
-            m1 = re.search(r'char\s*\*\s*tmp\s*=\s*malloc\s*\(\s*size\s*\+\s*1\s*\)\s*;', b)
-            m2 = re.search(r'vsprintf\s*\(\s*tmp\s*,\s*fmt\s*,\s*va\s*\)\s*;', b)
-            m3 = re.search(r'memcpy\s*\(\s*s->val\s*\+\s*pos\s*,\s*tmp\s*,\s*size\s*\+\s*1\s*\)\s*;\s*free\s*\(\s*tmp\s*\)\s*;\s*return\s+size\s*;', b)
-            if m1 and m2 and m3 and m1.start() < m2.start() < b.find('realloc(') < m3.start():
-                safe = 'true'
-    emit('string_format_alloc', ('Definition string_format_alloc (pos size : nat) : nat := %s.   (* source: realloc(s->val, %s) *)'
-                                 % (e, ra.strip())) if safe else None)
-    emit('string_format_self_safe', ('Definition string_format_self_safe : bool := %s.   (* %s *)'
-                                     % (safe, 'rendered into a temporary buffer before the realloc' if safe == 'true'
-                                        else 'vsprintf(s->val + pos, fmt, va) after the realloc')) if safe else None)
-
-    # --- String_Rem
-    b = fn('String_Rem')
-    cnt = None
-    if b:
-        m = re.search(r'size_t\s+count\s*=([^;]*);', b)
+    c = compact(b) if b else ''
+    e = ra = safe = cap = hw = why = None
+    pre0 = r'#else va_list va_tmp;va_copy\(va_tmp,va\);int size=vsnprintf\(NULL,0,fmt,va_tmp\);va_end\(va_tmp\);'
+    real = r's->val=realloc\(s->val,(?P<e>[^;]*)\);'
+    m = re.fullmatch(pre0 + real + r'return vsprintf\(s->val\+pos,fmt,va\);#endif\}', c)
+    if m:
+        ra, safe, cap, hw, why = m.group('e'), 'false', '0', 'true', 'vsprintf(s->val + pos, fmt, va) after the realloc'
+    m = re.fullmatch(pre0 + r'char\*tmp=malloc\(size\+1\);vsprintf\(tmp,fmt,va\);' + real +
+                     r'memcpy\(s->val\+pos,tmp,size\+1\);free\(tmp\);return size;#endif\}', c)
+    if m:
+        ra, safe, cap, hw, why = m.group('e'), 'true', '0', 'true', 'rendered into a heap temporary before the realloc'
+    # a local buffer filled while measuring; the heap temporary only when COND
+    mb = re.match(r'#else char (?P<buf>\w+)\[(?P<cap>\d+)\];', c)
+    if mb:
+        B, K = re.escape(mb.group('buf')), mb.group('cap')
+        pre1 = (r'#else char %s\[%s\];va_list va_tmp;va_copy\(va_tmp,va\);int size=vsnprintf\(%s,(?:sizeof\(%s\)|sizeof %s|%s),fmt,va_tmp\);va_end\(va_tmp\);'
+                % (B, K, B, B, B, K))
+        cond = r'(?P<lhs>size|size\+1)(?P<op>>=|>)(?:sizeof\(%s\)|sizeof %s|%s)' % (B, B, K)
+        tail = real + r'memcpy\(s->val\+pos,tmp,size\+1\);if\(tmp!=%s\)\{free\(tmp\);\}return size;#endif\}' % B
+        m = re.fullmatch(pre1 + r'char\*tmp=%s;if\(%s\)\{tmp=malloc\(size\+1\);vsprintf\(tmp,fmt,va\);\}' % (B, cond) + tail, c) or \
+            re.fullmatch(pre1 + r'char\*tmp=%s\?malloc\(size\+1\):%s;if\(tmp!=%s\)\{vsprintf\(tmp,fmt,va\);\}' % (cond, B, B) + tail, c)
         if m:
-            cnt = _expr(m.group(1), {'strlen(String_C_Str(self))': 'hl', 'strlen(pos)': 'pl',
-                                     'strlen(c->c_str(obj))': 'nl'}, True)
-    shape = b and re.search(r'char\s*\*\s*pos\s*=\s*strstr\s*\(\s*String_C_Str\s*\(\s*self\s*\)\s*,\s*c->c_str\s*\(\s*obj\s*\)\s*\)', b) and \
-        re.search(r'memmove\s*\(\s*(?:\(char\s*\*\)\s*)?pos\s*,\s*pos\s*\+\s*strlen\s*\(\s*c->c_str\s*\(\s*obj\s*\)\s*\)\s*,\s*count\s*\)', b)
-    emit('string_rem_count', ('Definition string_rem_count (hl pl nl : Z) : Z := (%s)%%Z.   (* source: size_t count =%s *)'
-                              % (cnt, re.sub(r'\s+', ' ', m.group(1)))) if (cnt and shape) else None)
-    if b and shape:
-        chk = re.search(r'if\s*\(\s*(?:pos\s+is\s+NULL|pos\s*==\s*NULL|!\s*pos|not\s+pos)\s*\)\s*\{?\s*throw\s*\(\s*ValueError\b', b)
-        # the check must come before the count is computed
-        if chk and b.find('size_t count') > chk.start():
-            emit('string_rem_checks', 'Definition string_rem_checks : bool := true.   (* source: if (pos is NULL) throw(ValueError, ..) *)')
-        else:
-            emit('string_rem_checks', 'Definition string_rem_checks : bool := false.   (* source: no NULL check after strstr *)')
+            ra, safe, cap = m.group('e'), 'true', K
+            lhs = 'size' if m.group('lhs') == 'size' else 'size + 1'
+            hw = ('cap <=? %s' if m.group('op') == '>=' else 'cap <? %s') % lhs
+            why = ('measured into a local buffer of %s bytes, heap temporary when %s %s %s; both before the realloc'
+                   % (K, m.group('lhs'), m.group('op'), K))
+    e = _expr(ra, {'pos': 'pos', 'size': 'size'}, False) if ra else None
+    emit('string_format_alloc', ('Definition string_format_alloc (pos size : nat) : nat := %s.   (* source: realloc(s->val, %s) *)' % (e, ra)) if e else None)
+    emit('string_format_self_safe', ('Definition string_format_self_safe : bool := %s.   (* %s *)' % (safe, why)) if e else None)
+    emit('string_format_local_cap', ('Definition string_format_local_cap : nat := %s.   (* size of the local buffer the measuring vsnprintf renders into; 0 = none *)' % cap) if e else None)
+    emit('string_format_heap_when', ('Definition string_format_heap_when (size cap : nat) : bool := %s.   (* when the text is rendered again into a heap temporary *)' % hw) if e else None)
+
+    # ------------------------------------------------------------------ String_Rem
+    b = fn('String_Rem')
+    c = inline_locals(compact(b), keep={'pos'}) if b else ''
+    early = r'(?:if\((?:%s==0|0==%s|!%s)\)\{return;\})' % (NL, NL, NL)
+    chk = r'(?P<chk>if\((?:pos==NULL|NULL==pos|!pos)\)\{throw\(ValueError,"",obj\);\})?'
+    m = re.fullmatch(r'\{struct C_Str\*c=instance\(obj,C_Str\);if\(c&&c->c_str\)\{(?P<e1>' + early + r')?'
+                     r'char\*pos=strstr\(String_C_Str\(self\),c->c_str\(obj\)\);' + chk + r'(?P<e2>' + early + r')?'
+                     r'memmove\(pos,\(?pos\+' + NL + r'\)?,(?P<cnt>[^;]*)\);(?:return;)?\}(?:throw\(ValueError,"",obj\);)?\}', c)
+    cnt = None
+    if m:
+        nl = 'strlen(c->c_str(obj))'
+        cnt = _expr(m.group('cnt'), {'strlen(String_C_Str(self))': 'hl', 'strlen(pos)': 'pl', nl: 'nl',
+                                     # pos points at a match of nl bytes: strlen(pos + nl) = strlen(pos) - nl
+                                     'strlen(pos+%s)' % nl: '(pl - nl)', 'strlen((pos+%s))' % nl: '(pl - nl)'}, True)
+    emit('string_rem_count', ('Definition string_rem_count (hl pl nl : Z) : Z := (%s)%%Z.   (* source (locals inlined): memmove(pos, pos + nl, %s)%s *)'
+                              % (cnt, m.group('cnt').replace('strlen(c->c_str(obj))', 'nl'),
+                                 '; an empty needle returns at once' if (m.group('e1') or m.group('e2')) else '')) if cnt else None)
+    if cnt:
+        emit('string_rem_checks', 'Definition string_rem_checks : bool := %s.   (* %s *)'
+             % (('true', 'source: if (pos is NULL) throw(ValueError, ..) before the move') if m.group('chk')
+                else ('false', 'source: no NULL check after strstr')))
     else:
         emit('string_rem_checks', None)
